@@ -121,3 +121,43 @@ cc!(commitment_depth0, 0);
 cc!(commitment_depth1, 1);
 cc!(commitment_depth2, 2);
 //@end
+
+//@ prop=C15 tier=quick sha=uf secp=1 mem=16 timeout=1800 desc="UntweakedPublicKey::tap_tweak: the output key is the internal key tweaked by H_TapTweak(P || merkle root) (or H_TapTweak(P) without a tree), parity as reported; the matching control block of depth 0 verifies against it"
+#[kani::proof]
+#[kani::unwind(36)]
+#[kani::stub(elements::hashes::sha256::HashEngine::process_blocks, stubs::sha256_process_blocks)]
+#[kani::stub(<core::any::TypeId as crate::stubs::traits::PEq>::eq, crate::stubs::typeid_eq_model)]
+pub fn tap_tweak_matches() {
+    use elements::schnorr::TapTweak;
+    let secp = crate::util::model_secp();
+    let internal: UntweakedPublicKey = any_xonly();
+    let has_root: bool = kani::any();
+    let root: [u8; 32] = kani::any();
+    // reference tweak
+    let mut e = sha256t::Hash::<TapTweakTag>::engine();
+    e.input(&internal.serialize());
+    if has_root {
+        e.input(&root);
+    }
+    let tweak = sha256t::Hash::<TapTweakTag>::from_engine(e).to_byte_array();
+    let scalar = match Scalar::from_be_bytes(tweak) {
+        Ok(s) => s,
+        Err(_) => {
+            kani::assume(false);
+            unreachable!()
+        }
+    };
+    // the model's tweak addition may fail (point at infinity): excluded, as the library documents "Tap tweak failed"
+    let expected = match internal.add_tweak(&secp, &scalar) {
+        Ok(x) => x,
+        Err(_) => {
+            kani::assume(false);
+            unreachable!()
+        }
+    };
+    let (out, parity) = internal.tap_tweak(&secp, if has_root { Some(TapNodeHash::from_byte_array(root)) } else { None });
+    assert!(out.into_inner() == expected.0 && parity == expected.1, "output key = internal key + H_TapTweak(P || root) * G, with the reported parity");
+    kani::cover!(has_root, "with a script tree");
+    kani::cover!(!has_root, "key-path only");
+    core::mem::forget(secp);
+}
